@@ -35,7 +35,8 @@ type Case struct {
 	// reader op: take the ground truth from the file itself (os.ReadFile), for files too large to ship in a case
 	TruthFromFile bool    `json:"truth_from_file,omitempty"`
 	Ops           int     `json:"ops,omitempty"`
-	Offsets       []int64 `json:"offsets,omitempty"` // readerbig: the places the history clusters around
+	ConcRender    int     `json:"conc_render,omitempty"` // json op: also render every result list from this many goroutines at once
+	Offsets       []int64 `json:"offsets,omitempty"`     // readerbig: the places the history clusters around
 	Seed          uint64  `json:"seed,omitempty"`
 	ReadPlan      []int   `json:"read_plan,omitempty"` // explicit (op,off,len) triples
 
@@ -121,9 +122,10 @@ type PanicInfo struct {
 }
 
 type Run struct {
-	Panic   *PanicInfo `json:"panic,omitempty"`
-	Budget  string     `json:"budget,omitempty"` // "steps:N" when the step budget sentinel fired
-	Matches []Match    `json:"matches"`
+	ConcRenderMismatch string     `json:"conc_render_mismatch,omitempty"`
+	Panic              *PanicInfo `json:"panic,omitempty"`
+	Budget             string     `json:"budget,omitempty"` // "steps:N" when the step budget sentinel fired
+	Matches            []Match    `json:"matches"`
 
 	Steps      int            `json:"steps"`
 	Backtracks int            `json:"bt"` // times the VM resumed from a saved choice point (pc discontinuity after FAIL paths is not visible; counted as pushes seen)
